@@ -123,6 +123,9 @@ def stage(prop, tier, seed, workdir, env, root, build, repo, **kw):
             res['violations'].append((path, False, err[:300]))
             return res
         cfgs = configs(tier, seed)
+        if prop == 'C15':
+            # C15 is about endless Numbers: the waits a search issues must return whatever other readers ask for meanwhile
+            cfgs = [c for c in cfgs if c[1] == -1]
         procs, outs = [], []
         maxpar = 14
         pending = list(enumerate(cfgs))
